@@ -797,6 +797,7 @@ type Choices struct {
 	Encoding    string // algorithm named in the encoding header ("" = none)
 	Mask        int    // bit i: message i is sent compressed (only with Encoding)
 	ExtraJSON   bool   // insignificant whitespace in Connect JSON
+	DropStatus  bool   // NOT conformant: end the response without the protocol's terminator (a broken peer / proxy)
 }
 
 // AppResponse is a response at the application level.
@@ -944,7 +945,9 @@ func EncodeResponse(proto string, unary bool, reqContentType string, r AppRespon
 		if c.ExtraJSON {
 			eb = append([]byte(" "), eb...)
 		}
-		body = append(body, Envelope(2, eb)...)
+		if !c.DropStatus {
+			body = append(body, Envelope(2, eb)...)
+		}
 		return status, header, body, trailer
 	case GRPC, GRPCWeb:
 		header.Set("Content-Type", reqContentType)
@@ -956,6 +959,9 @@ func EncodeResponse(proto string, unary bool, reqContentType string, r AppRespon
 		}
 		end := grpcStatusBlock(r.Err, c)
 		mergeInto(end, r.Trailer, r.ErrMeta)
+		if c.DropStatus {
+			return status, header, body, trailer
+		}
 		if len(r.Msgs) == 0 && c.HeadersOnly {
 			mergeInto(header, end)
 			return status, header, nil, trailer
